@@ -668,6 +668,7 @@ func c14AddrOps(c *Ctx) {
 func c14(c *Ctx) {
 	c14FailSeen = map[string]int{}
 	c14SchemaOps(c)
+	c14BoundOps(c) // short/long-form header boundary family (c14_bounds.go)
 	for i := 0; i < c.N; i++ {
 		// 1. a tree, its canonical encoding, the enc op and the decode of the canonical bytes
 		budget := 60
